@@ -1,5 +1,397 @@
 import Driver.Util
+import KavaVerif.Model.Emissions
+/-!
+  C19 driver.  Every case line carries the implementation's observed input and output.  A handler
+  (1) runs the Lean model (`live` variant for kavadist) on the observed input and compares → MISMATCH,
+  (2) evaluates the property predicates on the implementation's own output, independently of the
+      model → PREDFAIL <C19_theorem_name> <tag> …
+
+  Times are nanoseconds since the Unix epoch, `none` = Go's zero time / "not found".  Dec values are
+  mantissas (10^-18).  Periods are `start:end:rate` joined by `;` (`-` = none).
+
+  c19.calc       now last err rate pool            => paid err'
+  c19.part       rate t0 e0 times pools            => paids err' whole
+  c19.periods    kind now prev periods             => mints te          (mints = idx:secs;…)
+  c19.kdhist     prev periods blocks               => -                 (blocks = now:active:idx=secs,…;…)
+  c19.mintamt    supply rate secs                  => amount
+  c19.relpow     x n1 n2                           => z1 z2
+  c19.fullblock  now inflow mintProv | community params | inflation params | staking state | kavadist state
+                                                   => class and the same observation afterwards
+-/
 namespace Drv.C19
-/-- handlers of property C19: (command name, handler) -/
-def handlers : List (String × Handler) := []
+open KV KV.Em
+
+def NSi : Int := 1000000000
+
+def optInt? (s : String) : Option (Option Int) :=
+  let t := s.trimAscii.toString
+  if t == "none" then some none else (int? t).map some
+
+def showOpt : Option Int → String
+  | none => "none"
+  | some x => toString x
+
+def period? (s : String) : Option Period :=
+  match s.splitOn ":" with
+  | [a, b, r] =>
+    match int? a, int? b, int? r with
+    | some a, some b, some r => some ⟨a, b, ⟨r⟩⟩
+    | _, _, _ => none
+  | _ => none
+
+def periods? (s : String) : Option (List Period) := (strs s ";").mapM period?
+
+def pair? (sep : String) (s : String) : Option (Int × Int) :=
+  match s.splitOn sep with
+  | [a, b] =>
+    match int? a, int? b with
+    | some a, some b => some (a, b)
+    | _, _ => none
+  | _ => none
+
+def showMints (ms : List (Int × Int)) : String :=
+  if ms.isEmpty then "-" else ";".intercalate (ms.map fun (i, s) => s!"{i}:{s}")
+
+def mintsOf (ms : List Mint) : List (Int × Int) := ms.map fun m => ((m.idx : Int), m.secs)
+
+def imax (a b : Int) : Int := if a < b then b else a
+def imin (a b : Int) : Int := if a < b then a else b
+
+/-- Unix seconds of `[start, end] ∩ (prev, now]` -/
+def allowedSecs (p : Period) (prev now : Int) : Int :=
+  imax 0 (unix (imin p.end_ now) - unix (imax p.start prev))
+
+/-! ### c19.calc -/
+
+def calcPred (now last err rate poolm paid err' : Int) : String :=
+  if !(last ≤ now && 0 ≤ rate && 0 ≤ err && err < P && 0 ≤ poolm && poolm % P == 0) then "ok"
+  else if err' < 0 || err' ≥ P then predfail "C19_staking_partition" s!"error-out-of-range err'={err'}"
+  else if paid < 0 then predfail "C19_staking_partition" s!"negative-payout paid={paid}"
+  else if paid * P > poolm then predfail "C19_staking_partition" s!"pool-cap paid={paid} pool={poolm / P}"
+  else if NSi * (paid * P + err' - err) > rate * (now - last) then
+    predfail "C19_staking_partition" s!"exceeds-rate paid={paid}"
+  else if paid * P + err' < poolm && rate * (now - last) - NSi * (paid * P + err' - err) ≥ NSi then
+    predfail "C19_staking_partition" s!"shortfall paid={paid}"
+  else "ok"
+
+def handleCalc : Handler
+  | [now, last, err, rate, pool, _, paid, err'] =>
+    match int? now, int? last, int? err, int? rate, int? pool, int? paid, int? err' with
+    | some now, some last, some err, some rate, some pool, some paid, some err' =>
+      let r := calculateStakingRewards now last ⟨err⟩ ⟨rate⟩ ⟨pool⟩
+      -- the property predicate on the implementation's output first, then model = implementation
+      allOk [calcPred now last err rate pool paid err',
+             expectEq "paid" (toString r.1) (toString paid), expectEq "err" (toString r.2.m) (toString err')]
+    | _, _, _, _, _, _, _ => badInput "parse"
+  | _ => badInput "arity"
+
+/-! ### c19.part -/
+
+def lastOr (d : Int) : List Int → Int
+  | [] => d
+  | [x] => x
+  | _ :: xs => lastOr d xs
+
+def sortedL : Int → List Int → Bool
+  | _, [] => true
+  | t, x :: xs => decide (t ≤ x) && sortedL x xs
+
+def handlePart : Handler
+  | [rate, t0, e0, times, pools, _, paids, err', whole] =>
+    match int? rate, int? t0, int? e0, ints? times, ints? pools, ints? paids, int? err' with
+    | some rate, some t0, some e0, some times, some pools, some paids, some err' =>
+      if times.length != pools.length || times.length != paids.length then badInput "lengths" else
+      let bs := times.zip pools
+      let r := runBlocks ⟨rate⟩ t0 ⟨e0⟩ bs
+      let cmp := allOk [expectEq "paids" (showInts r.1) (showInts paids),
+                        expectEq "err" (toString r.2.2.m) (toString err')]
+      -- the theorem's predicates on the implementation's own outputs
+      let pred :=
+        if !(0 ≤ rate && 0 ≤ e0 && e0 < P && sortedL t0 times && pools.all (fun p => decide (0 ≤ p))) then "ok" else
+        let total := sumL paids
+        let tn := lastOr t0 times
+        let n : Int := times.length
+        let capOk := (paids.zip pools).all fun (p, b) => decide (0 ≤ p) && decide (p ≤ b)
+        let uncappedObs := (paids.zip pools).all fun (p, b) => decide (p < b)
+        if err' < 0 || err' ≥ P then predfail "C19_staking_partition" s!"error-out-of-range err'={err'}"
+        else if !capOk then predfail "C19_staking_partition" "pool-cap"
+        else if NSi * (total * P + err') > rate * (tn - t0) + NSi * e0 then
+          predfail "C19_staking_partition" s!"exceeds-rate total={total}"
+        else if uncappedObs && rate * (tn - t0) + NSi * e0 - NSi * (total * P) ≥ NSi * (P + n) then
+          predfail "C19_staking_partition" s!"shortfall total={total} n={n}"
+        else
+          match int? whole with
+          | some w =>
+            if uncappedObs && (total - w > 1 || w - total > 1) then
+              predfail "C19_staking_partition_independent" s!"partition-dependent total={total} whole={w}"
+            else "ok"
+          | none => "ok"
+      if pred != "ok" then pred else cmp
+    | _, _, _, _, _, _, _ => badInput "parse"
+  | _ => badInput "arity"
+
+/-! ### c19.periods / c19.kdhist -/
+
+def dupIdx : List (Int × Int) → Bool
+  | [] => false
+  | (i, _) :: rest => rest.any (fun (j, _) => j == i) || dupIdx rest
+
+/-- window predicate on one observed `(period index, timeElapsed)` of a block `(prev, now]` -/
+def windowPred (ps : List Period) (prev now : Int) (obs : List (Int × Int)) : String :=
+  if dupIdx obs then predfail "C19_kavadist_never_twice" "same-period-twice-in-one-call" else
+  let check := fun (acc : String) (o : Int × Int) =>
+    if acc != "ok" then acc else
+    match ps[o.1.toNat]? with
+    | none => badInput "period-index"
+    | some p =>
+      let secs := o.2
+      if secs < 0 then predfail "C19_kavadist_window" s!"negative-seconds idx={o.1} secs={secs}"
+      else if secs ≤ allowedSecs p prev now then "ok"
+      else if prev < p.start && secs ≤ unix (imin p.end_ now) - unix prev then
+        predfail "C19_kavadist_window" s!"before-start idx={o.1} secs={secs} allowed={allowedSecs p prev now}"
+      else if secs > unix now - unix prev then
+        predfail "C19_kavadist_window" s!"outside-block idx={o.1} secs={secs} allowed={allowedSecs p prev now}"
+      else predfail "C19_kavadist_window" s!"after-end idx={o.1} secs={secs} allowed={allowedSecs p prev now}"
+  obs.foldl check "ok"
+
+def handlePeriods : Handler
+  | [kind, now, prev, periods, _, mints, te] =>
+    if mints.trimAscii.toString == "panic" then
+      -- the real function panicked: the only modelled cause is an infrastructure mint call for zero
+      -- coins (with the harness' recording bank the coins minted equal `timeElapsed`)
+      match int? now, int? prev, periods? periods with
+      | some now, some prev, some ps =>
+        let ms := mintIncentivePeriods live now ps prev 0
+        -- malformed stream (previous block time after now, or a period with end < start which
+        -- validatePeriodsParams rejects): a negative `timeElapsed` makes sdkmath.NewUintFromBigInt
+        -- panic; unreachable
+        if (now < prev || ps.any (fun p => decide (p.end_ < p.start))) && ms.any (fun m => decide (m.secs < 0)) then "ok"
+        else if liveZeroMintPanics && kind == "infra" && ms.any (fun m => m.secs == 0) then
+          predfail "C19_begin_block_no_panic" "kavadist-infra-zero-mint pure"
+        else mismatch "result" "ok" "panic"
+      | _, _, _ => badInput "parse"
+    else
+    match int? now, int? prev, periods? periods, (strs mints ";").mapM (pair? ":") with
+    | some now, some prev, some ps, some obs =>
+      let cmp :=
+        if kind == "inc" then
+          expectEq "mints" (showMints (mintsOf (mintIncentivePeriods live now ps prev 0))) (showMints obs)
+        else
+          let r := mintInfrastructurePeriods live now ps prev 0 0
+          allOk [expectEq "mints" (showMints (mintsOf r.1)) (showMints obs),
+                 expectEq "timeElapsed" (toString r.2) te.trimAscii.toString]
+      let pred := if prev ≤ now then windowPred ps prev now obs else "ok"
+      if pred != "ok" then pred
+      else if cmp != "ok" then cmp
+      else if liveZeroMintPanics && kind == "infra" && obs.any (fun o => o.2 == 0) then mismatch "result" "panic" "ok"
+      else "ok"
+    | _, _, _, _ => badInput "parse"
+  | _ => badInput "arity"
+
+structure HBlock where
+  now : Int
+  active : Bool
+  obs : List (Int × Int)
+
+def hblock? (s : String) : Option HBlock :=
+  match s.splitOn ":" with
+  | [now, act, obs] =>
+    match int? now, bool? act, (strs obs ",").mapM (pair? "=") with
+    | some now, some act, some obs => some ⟨now, act, obs⟩
+    | _, _, _ => none
+  | _ => none
+
+def addSecs (tot : List Int) (obs : List (Int × Int)) : List Int :=
+  tot.zipIdx.map fun (t, i) => t + sumL ((obs.filter fun o => o.1 == (i : Int)).map (·.2))
+
+def handleKdHist : Handler
+  | [prev0, periods, blocks, _, _] =>
+    match int? prev0, periods? periods, (strs blocks ";").mapM hblock? with
+    | some prev0, some ps, some bs =>
+      -- thread `previousBlockTime` as MintPeriodInflation does
+      let step := fun (st : String × Int × List Int) (b : HBlock) =>
+        if st.1 != "ok" then st else
+        if !b.active then
+          (if b.obs.isEmpty then "ok" else predfail "C19_disable_once" "kavadist-minted-while-inactive", st.2.1, st.2.2)
+        else
+          let prev := st.2.1
+          let m := mintsOf (mintIncentivePeriods live b.now ps prev 0)
+          let cmp := expectEq "mints" (showMints m) (showMints b.obs)
+          let pred := if prev ≤ b.now then windowPred ps prev b.now b.obs else "ok"
+          let r := if pred != "ok" then pred else cmp
+          (r, b.now, addSecs st.2.2 b.obs)
+      let fin := bs.foldl step ("ok", prev0, ps.map (fun _ => 0))
+      if fin.1 != "ok" then fin.1 else
+      -- never twice: cumulative seconds per period never exceed the seconds that elapsed
+      let tn := fin.2.1
+      let bad := (fin.2.2.zipIdx).find? fun (t, _) => decide (t > unix tn - unix prev0) || decide (t < 0)
+      match bad with
+      | some (t, i) => predfail "C19_kavadist_never_twice" s!"cumulative idx={i} secs={t} elapsed={unix tn - unix prev0}"
+      | none => "ok"
+    | _, _, _ => badInput "parse"
+  | _ => badInput "arity"
+
+/-! ### c19.mintamt / c19.relpow -/
+
+def handleMintAmt : Handler
+  | [supply, rate, secs, _, amount] =>
+    match int? supply, int? rate, int? secs, int? amount with
+    | some supply, some rate, some secs, some amount =>
+      let m := mintAmount relPow18 supply ⟨rate⟩ secs
+      if m != amount then mismatch "amount" (toString m) (toString amount)
+      else if rate ≥ P && 0 ≤ supply && amount < 0 then predfail "C19_kavadist_amount_monotone" "negative-amount"
+      else "ok"
+    | _, _, _, _ => badInput "parse"
+  | _ => badInput "arity"
+
+def handleRelPow : Handler
+  | [x, n1, n2, _, z1, z2] =>
+    match int? x, int? n1, int? n2, int? z1, int? z2 with
+    | some x, some n1, some n2, some z1, some z2 =>
+      let c := allOk [expectEq "relpow" (toString (relPow18 x n1)) (toString z1),
+                      expectEq "relpow" (toString (relPow18 x n2)) (toString z2)]
+      if c != "ok" then c
+      -- monitored assumptions of C19_kavadist_amount_monotone (rates ≥ 1)
+      else if x ≥ P && n1 ≤ n2 && z1 > z2 then predfail "C19_kavadist_amount_monotone" "assumption-relpow-not-monotone"
+      else if x ≥ P && z1 < P then predfail "C19_kavadist_amount_monotone" "assumption-relpow-below-one"
+      else "ok"
+    | _, _, _, _, _ => badInput "parse"
+  | _ => badInput "arity"
+
+/-! ### c19.fullblock -/
+
+structure FullObs where
+  upgrade : Option Int
+  rate : Int
+  upgradeRate : Int
+  mintMin : Int
+  mintMax : Int
+  kdActive : Bool
+  tax : Int
+  last : Option Int
+  err : Int
+  pool : Int
+  fee : Int
+  kdPrev : Option Int
+  supply : Int
+  kdBal : Int
+
+def fullObs? : List String → Option FullObs
+  | [u, r, ur, mn, mx, ka, tx, l, e, p, f, kp, s, kb] =>
+    match optInt? u, int? r, int? ur, int? mn, int? mx, bool? ka, int? tx, optInt? l, int? e, int? p, int? f,
+          optInt? kp, int? s, int? kb with
+    | some u, some r, some ur, some mn, some mx, some ka, some tx, some l, some e, some p, some f,
+      some kp, some s, some kb => some ⟨u, r, ur, mn, mx, ka, tx, l, e, p, f, kp, s, kb⟩
+    | _, _, _, _, _, _, _, _, _, _, _, _, _, _ => none
+  | _ => none
+
+def fullPred (now inflow : Int) (ps infra : List Period) (pre post : FullObs) : String :=
+  -- the switch-over: fires exactly when the trigger is set and not after `now`
+  let shouldFire := match pre.upgrade with
+    | some u => decide (u ≤ now)
+    | none => false
+  let firedObs := pre.upgrade.isSome && post.upgrade.isNone
+  if shouldFire && !firedObs then predfail "C19_disable_once" "not-fired-at-or-after-upgrade-time"
+  else if !shouldFire && post.upgrade != pre.upgrade then predfail "C19_disable_once" "trigger-changed-early"
+  else if shouldFire && !(post.mintMin == 0 && post.mintMax == 0 && !post.kdActive) then
+    predfail "C19_disable_once" "inflation-left-on"
+  else if !shouldFire && !(post.mintMin == pre.mintMin && post.mintMax == pre.mintMax &&
+      post.kdActive == pre.kdActive && post.rate == pre.rate && post.tax == pre.tax) then
+    predfail "C19_disable_once" "params-changed-without-firing"
+  else
+  let kdMinted := post.kdBal - pre.kdBal
+  let mintProv := (post.supply - pre.supply) - kdMinted
+  if post.mintMin == 0 && post.mintMax == 0 && mintProv != 0 then
+    predfail "C19_disable_once" s!"mint-minted-after-disable amount={mintProv}"
+  else if !post.kdActive && (kdMinted != 0 || post.kdPrev != pre.kdPrev) then
+    predfail "C19_disable_once" s!"kavadist-minted-while-inactive amount={kdMinted}"
+  else
+  -- staking payout of this block
+  let poolIn := if shouldFire then pre.pool + inflow else pre.pool
+  let paid := poolIn - post.pool
+  if paid < 0 || paid > poolIn then predfail "C19_staking_partition" s!"pool-cap paid={paid} pool={poolIn}"
+  else if post.fee - pre.fee != paid + mintProv then
+    predfail "C19_staking_payout" s!"not-conserved paid={paid} feeDelta={post.fee - pre.fee} mint={mintProv}"
+  else if post.err < 0 || post.err ≥ P then predfail "C19_staking_partition" "error-out-of-range"
+  else
+  let rateOk := match pre.last with
+    | some l => decide (NSi * (paid * P + post.err - pre.err) ≤ post.rate * (now - l)) || decide (now < l)
+    | none => decide (paid == 0)
+  if !rateOk then predfail "C19_staking_partition" s!"exceeds-rate paid={paid}"
+  else
+  -- kavadist: the coins minted never exceed what the periods' own windows allow
+  match pre.kdPrev with
+  | none => if kdMinted != 0 then predfail "C19_kavadist_window" "minted-without-previous-block-time" else "ok"
+  | some prev =>
+    if !post.kdActive || now < prev then "ok" else
+    let allowed := (ps ++ infra).map fun p => (⟨0, p, 0, 0, allowedSecs p prev now⟩ : Mint)
+    let bound := (applyMints relPow18 (pre.supply + mintProv) allowed).2 - (pre.supply + mintProv)
+    if (ps ++ infra).all (fun p => decide (p.inflation.m ≥ P)) && kdMinted > bound then
+      let tag := if (ps ++ infra).any (fun p => decide (prev < p.start) && decide (p.end_ ≤ now)) then "before-start"
+                 else "outside-window"
+      predfail "C19_kavadist_window" s!"{tag} minted={kdMinted} allowed={bound}"
+    else "ok"
+
+def handleFull : Handler
+  | now :: inflow :: mintProvDry :: rest =>
+    -- rest = 12 pre fields (community+infl+staking), kdPrev, periods, infra, supply, kdBal, "=>", cls, 14 post fields
+    match rest with
+    | [u, r, ur, mn, mx, ka, tx, l, e, p, f, kp, periods, infra, s, kb, _, cls,
+       u', r', ur', mn', mx', ka', tx', l', e', p', f', kp', s', kb'] =>
+      match int? now, int? inflow, int? mintProvDry, fullObs? [u, r, ur, mn, mx, ka, tx, l, e, p, f, kp, s, kb],
+            periods? periods, periods? infra with
+      | some now, some inflow, some mintProvDry, some pre, some ps, some infra =>
+        let c : Chain :=
+          { comm := { params := ⟨pre.upgrade, ⟨pre.rate⟩, ⟨pre.upgradeRate⟩⟩,
+                      infl := ⟨⟨pre.mintMin⟩, ⟨pre.mintMax⟩, pre.kdActive, ⟨pre.tax⟩⟩,
+                      stk := ⟨pre.last, ⟨pre.err⟩, pre.pool, pre.fee⟩ },
+            kd := ⟨pre.kdPrev, ps, infra⟩, supply := pre.supply }
+        let res := chainBeginBlock live liveZeroMintPanics relPow18 now inflow mintProvDry c
+        if cls != "ok" then
+          -- the implementation's begin blocker panicked: a violation whatever the model says
+          let tag := match res, communityBeginBlock now inflow c.comm with
+            | .ok _, _ => "not-predicted-by-model"
+            | _, .ok _ => "kavadist-infra-zero-mint"
+            | _, _ => "community-payout"
+          predfail "C19_begin_block_no_panic" s!"{tag} class={cls}"
+        else
+        match res with
+        | .ok c' =>
+          match fullObs? [u', r', ur', mn', mx', ka', tx', l', e', p', f', kp', s', kb'] with
+          | none => badInput "post"
+          | some post =>
+            let kdMinted := post.kdBal - pre.kdBal
+            let mintProv := (post.supply - pre.supply) - kdMinted
+            let cmp := allOk [
+              expectEq "mintProv(dry run)" (toString mintProvDry) (toString mintProv),
+              expectEq "upgradeTime" (showOpt c'.comm.params.upgradeTime) (showOpt post.upgrade),
+              expectEq "rate" (toString c'.comm.params.rate.m) (toString post.rate),
+              expectEq "upgradeRate" (toString c'.comm.params.upgradeRate.m) (toString post.upgradeRate),
+              expectEq "mintMin" (toString c'.comm.infl.mintMin.m) (toString post.mintMin),
+              expectEq "mintMax" (toString c'.comm.infl.mintMax.m) (toString post.mintMax),
+              expectEq "kdActive" (showBool c'.comm.infl.kavadistActive) (showBool post.kdActive),
+              expectEq "communityTax" (toString c'.comm.infl.communityTax.m) (toString post.tax),
+              expectEq "last" (showOpt c'.comm.stk.last) (showOpt post.last),
+              expectEq "err" (toString c'.comm.stk.err.m) (toString post.err),
+              expectEq "pool" (toString c'.comm.stk.pool) (toString post.pool),
+              expectEq "fee" (toString (c'.comm.stk.fee + mintProv)) (toString post.fee),
+              expectEq "kdPrev" (showOpt c'.kd.prev) (showOpt post.kdPrev),
+              expectEq "kdMinted" (toString c'.kdMinted) (toString kdMinted),
+              expectEq "supply" (toString c'.supply) (toString post.supply)]
+            let pred := fullPred now inflow ps infra pre post
+            if pred != "ok" then pred else cmp
+        | _ => mismatch "result" res.cls cls
+      | _, _, _, _, _, _ => badInput "parse"
+    | _ => badInput "arity"
+  | _ => badInput "arity"
+
+def handlers : List (String × Handler) := [
+  ("c19.calc", handleCalc),
+  ("c19.part", handlePart),
+  ("c19.periods", handlePeriods),
+  ("c19.kdhist", handleKdHist),
+  ("c19.mintamt", handleMintAmt),
+  ("c19.relpow", handleRelPow),
+  ("c19.fullblock", handleFull)
+]
 end Drv.C19
